@@ -4,7 +4,7 @@ Creates a scratch worktree of /repo HEAD, applies the patch there, (1) builds an
 (2) with --suite runs the affected part of the pinned test-suite (tools/mutant_tests.py), (3) runs the given checks with NMV_REPO pointing at
 the changed tree (evidence/replays redirected to <seed dir>/run/), prints and stores the outcome in <seed dir>/result.json, removes the worktree."""
 import sys, os, subprocess, json, tempfile, shutil, argparse, time
-ap = argparse.ArgumentParser(); ap.add_argument('seed'); ap.add_argument('pids', nargs='+'); ap.add_argument('--tier', default='quick'); ap.add_argument('--jobs', default='6'); ap.add_argument('--suite', action='store_true'); ap.add_argument('--only')
+ap = argparse.ArgumentParser(); ap.add_argument('seed'); ap.add_argument('pids', nargs='*'); ap.add_argument('--tier', default='quick'); ap.add_argument('--jobs', default='6'); ap.add_argument('--suite', action='store_true'); ap.add_argument('--only')
 a = ap.parse_args()
 seed = os.path.abspath(a.seed); ROOT = os.path.dirname(os.path.dirname(os.path.abspath(__file__)))
 wt = tempfile.mkdtemp(prefix='mut-', dir='/var/tmp'); os.rmdir(wt)
